@@ -791,6 +791,20 @@ class Machine:
                 if not (recv0.attrs and e.func.attr in recv0.attrs):
                     # (a method the class inherits: not modelled)
                     raise Unknown(f'method {e.func.attr} of a base class')
+        if n == 'hash' and isinstance(e.func, ast.Name) and \
+                len(e.args) == 1 and not e.keywords:
+            # CPython's hash of an integer is a fixed function of it
+            # (-1 is never a hash: it becomes -2); of an object, that of
+            # what its `__hash__` returns.  Strings are salted per run.
+            v = self.ev(e.args[0])
+            if isinstance(v, Sym):
+                meth = self.method_of(v, '__hash__')
+                if meth is None:
+                    raise Unknown(au.src(e))
+                v = self.apply_callable(meth, [v])
+            if isinstance(v, int):
+                return hash(v)
+            raise Unknown(au.src(e))
         if n == 'hasattr' and len(e.args) == 2:
             obj = self.ev(e.args[0])
             name = self.ev(e.args[1])
